@@ -2,33 +2,27 @@ package exec
 
 import (
 	"fmt"
-	"math/rand"
 	"testing"
 	"time"
 
 	"verif/lib/execgen"
 	"verif/lib/host"
+	"verif/lib/prog"
 )
 
-func TestTmpGrowth(t *testing.T) {
-	cases := execgen.GrowthCases(rand.New(rand.NewSource(1)), 0)
-	var free []execgen.BoundCase
-	for _, bc := range cases {
-		f := bc
-		f.MemLimit = 0
-		free = append(free, f)
-	}
-	lim := runBoundJobs(cases, 60*time.Second, 6)
-	unl := runBoundJobs(free, 60*time.Second, 6)
-	for i, bc := range cases {
-		l, u := lim[i], unl[i]
-		ls, us := "TIMEOUT/CRASH", "TIMEOUT/CRASH"
-		if l.br != nil {
-			ls = fmt.Sprintf("%-5s %-38s %6dms memtotal=%-9d", l.br.Class, l.br.Root, l.br.Millis, l.br.MemTotal)
+func TestTmpRepl(t *testing.T) {
+	for _, src := range []string{
+		`access(all) fun main(): Int { var s = "aaaaaaaa"; while s.length < %d { s = s.replaceAll(of: "a", with: "aa") }; return s.length }`,
+		`access(all) fun main(): Int { var s = "ab,cd,ef"; while s.length < %d { let parts = s.split(separator: ","); s = String.join(parts.concat(parts), separator: ",") }; return s.length }`,
+		`access(all) fun main(): Int { var s = "ab,cd,ef"; var n = 0; while s.length < %d { s = s.concat(s) }; return s.split(separator: ",").length }`,
+	} {
+		for _, n := range []int{1000, 10000, 100000, 400000} {
+			for _, eng := range host.Engines {
+				it := execgen.Item{Name: "x", Hist: prog.History{Steps: []prog.Step{{Kind: prog.Script, Source: fmt.Sprintf(src, n), MayFail: true}}}}
+				t0 := time.Now()
+				br := execgen.RunBound(execgen.BoundCase{Item: it, Engine: int(eng)})
+				fmt.Printf("n=%-7d %-11s %-5s memtotal=%-10d comptotal=%-8d %v %.80s\n", n, eng, br.Class, br.MemTotal, br.CompTotal, time.Since(t0), br.ErrMsg)
+			}
 		}
-		if u.br != nil {
-			us = fmt.Sprintf("%-5s %6dms memtotal=%-10d %.120s", u.br.Class, u.br.Millis, u.br.MemTotal, u.br.ErrMsg)
-		}
-		fmt.Printf("%-28s %-11s mem=%-7d -> %s | unlimited: %s\n", bc.Seed, host.Engine(bc.Engine), bc.MemLimit, ls, us)
 	}
 }
